@@ -55,6 +55,7 @@ class Case:
     dask_labels: bool = False
     scheduler: str = "sync"
     stream: str = ""
+    label_dtype: str | None = None  # dtype of the label array handed to flox when no label is missing (None: int64 / float64)
     expected_kind: str = "array"   # container handed to flox: "array" (ndarray) | "list" | "index" (pandas.Index) | "range" (pandas.RangeIndex; c.expected is an arithmetic progression)
 
     def key(self):
@@ -123,7 +124,7 @@ def np_labels(c: Case):
     if any(l is None for l in c.labels):
         return np.array([NAN if l is None else float(l) for l in c.labels], dtype="float64")
     if all(float(l).is_integer() for l in c.labels):
-        return np.array([int(l) for l in c.labels], dtype="int64")
+        return np.array([int(l) for l in c.labels], dtype=c.label_dtype or "int64")
     return np.array([float(l) for l in c.labels], dtype="float64")
 
 
